@@ -63,6 +63,29 @@ int main() {
       // the released handle is cleared (this is what makes a second release a no-op) and a caller-owned heap result was given back
       if (capsule(h)->addr != 0 || capsule(h)->idtor != 0) { std::printf("op %d notcleared\n", opno); std::fflush(stdout); return 5; }
       if (owned && (h.type == 3 || h.type == 4) && !(after < before)) { std::printf("op %d notfreed\n", opno); std::fflush(stdout); return 5; }
+    } else if (!std::strcmp(cmd, "tmp")) {
+      // wrappers that convert arguments through temporary buffers: a = text / element count, b = room in the caller's buffer.
+      // The caller's buffers are exact-size heap blocks, so that AddressSanitizer sees any access beyond them; afterwards
+      // nothing the wrapper allocated may be left (the allocator's byte count is unchanged)
+      int c = 0; std::sscanf(line, "%*s %d %d %d", &a, &b, &c);       // a: which function, b, c: sizes
+      int ntrim = b < 0 ? 0 : b, nlen = c < ntrim ? ntrim : c; if (nlen < 1) nlen = 1;
+      if (a == 4 && nlen < 20) nlen = 20;      // +charlen(20): the caller provides at least that many characters (documented contract)
+      char *buf = (char *)std::malloc(nlen); std::memset(buf, ' ', nlen); std::memset(buf, 'x', ntrim);
+      int *iv = (int *)std::malloc(sizeof(int) * (ntrim > 0 ? ntrim : 1)); for (int i = 0; i < ntrim; ++i) iv[i] = i + 1;
+      size_t before = __sanitizer_get_current_allocated_bytes();
+      if (a == 1) { g_room = nlen - ntrim; CAP_append_suffix_bufferify(buf, ntrim, nlen); val = buf[nlen - 1]; }
+      else if (a == 2) { int each = (c % 7) + 1; char *tg = (char *)std::malloc((size_t)ntrim * each + 1); std::memset(tg, ' ', (size_t)ntrim * each + 1);
+                         for (int i = 0; i < ntrim; ++i) std::memset(tg + (size_t)i * each, 't', (i % (each + 1)));
+                         before = __sanitizer_get_current_allocated_bytes();
+                         g_room = ntrim; val = CAP_count_tags_bufferify(tg, ntrim, each); size_t mid = __sanitizer_get_current_allocated_bytes();
+                         std::free(tg); if (mid != before) { std::printf("op %d leaktemp\n", opno); std::fflush(stdout); return 6; }
+                         before = __sanitizer_get_current_allocated_bytes(); }
+      else if (a == 3) { CAP_upcase_bufferify(buf, ntrim, nlen); val = buf[0]; }
+      else if (a == 4) { CAP_fill_name_bufferify(buf, nlen); val = buf[nlen - 1]; }
+      else { val = CAP_sumvec_bufferify(iv, ntrim); }
+      size_t after = __sanitizer_get_current_allocated_bytes();
+      std::free(buf); std::free(iv);
+      if (after != before) { std::printf("op %d leaktemp\n", opno); std::fflush(stdout); return 6; }
     } else if (!std::strcmp(cmd, "copy")) {
       H h = hs.at(a); hs.push_back(h);
     } else { std::printf("op %d badop\n", opno); std::fflush(stdout); return 3; }
